@@ -48,7 +48,8 @@ func GetJsonDataType(t dsl.Type) JsonDataType {
 	switch td := scalarType.ResolvedDefinition.(type) {
 	case dsl.PrimitiveDefinition:
 		switch td {
-		case dsl.String:
+		case dsl.String, dsl.Date, dsl.Time, dsl.DateTime:
+			// dates and times are written as formatted strings
 			return JsonString
 		case dsl.Int8, dsl.Int16, dsl.Int32, dsl.Int64, dsl.Uint8, dsl.Uint16, dsl.Uint32, dsl.Uint64, dsl.Size, dsl.Float32, dsl.Float64:
 			return JsonNumber
@@ -56,20 +57,20 @@ func GetJsonDataType(t dsl.Type) JsonDataType {
 			return JsonBoolean
 		case dsl.ComplexFloat32, dsl.ComplexFloat64:
 			return JsonArray
-		case dsl.Date, dsl.Time, dsl.DateTime:
-			return JsonNumber
 		default:
 			panic(fmt.Sprintf("unexpected primitive type %s", td))
 		}
 	case *dsl.EnumDefinition:
 		if td.IsFlags {
-			return JsonArray
+			// an array of symbols, or the integer value if it has undefined bits
+			return JsonArray | JsonNumber
 		}
 		return JsonString | JsonNumber
 	case *dsl.RecordDefinition:
 		return JsonObject
 	case *dsl.GenericTypeParameter:
-		return JsonObject
+		// the type argument is not known here and could have any JSON representation
+		return JsonNull | JsonBoolean | JsonNumber | JsonString | JsonArray | JsonObject
 	case *dsl.NamedType:
 		return GetJsonDataType(td.Type)
 	default:
